@@ -55,11 +55,17 @@ types.append(record("Defaults", [
     field("du", ref("Un"), default=json.dumps({"string": "u"})),
     field("dea", arr(prim("int32")), default="[]"), field("da", arr(prim("string")), default=json.dumps(["p", "q"])),
     field("dem", mp(prim("int32")), default="{}"), field("dmm", mp(prim("int64")), default=json.dumps({"k": 3})),
+    field("dhb", prim("bytes"), default=json.dumps("\u00ff\u0080a")),
     field("req", prim("string"))]))
 types.append(record("IncDefaults", [field("own", prim("string"))], includes=["Defaults"]))
 types.append(record("Leaf", [field("v", prim("string")), field("w", prim("int32"), True)]))
 types.append(record("Mid", [field("ml", mp(ref("Leaf"))), field("t", prim("string"))]))
 types.append(record("Deep", [field("am", arr(ref("Mid"))), field("top", prim("string")), field("ol", ref("Leaf"), True)]))
+# include chains: two siblings including the same record (which itself includes one)
+types.append(record("Base2", [field("b1", prim("string")), field("b2", prim("string"))]))
+types.append(record("Mid2", [field("m1", prim("string"))], includes=["Base2"]))
+types.append(record("Alpha", [field("a1", prim("string"))], includes=["Mid2"]))
+types.append(record("Beta", [field("p1", prim("string")), field("p2", prim("string"), True)], includes=["Mid2"]))
 types.append(record("KParams", [field("x", prim("int32"), True)]))
 ck = named("Ck"); ck["Key"] = {"name": "Inner", "namespace": NS}; ck["Params"] = {"name": "KParams", "namespace": NS}
 types.append({"complexKey": ck})
